@@ -1,6 +1,7 @@
 import TSSVerif.Model.PsAlgebra
 import TSSVerif.Props.C18
 import TSSVerif.Props.C05
+import TSSVerif.Proofs.SubsetCheck
 /-!
 # C01 — threshold key agreement and signing correctness for all n, t, subsets, schedules
 
@@ -91,6 +92,19 @@ theorem checked_subset_signs {κ : Type*} [DecidableEq κ] (S : Finset κ) (v : 
     rw [smul_smul]
   rw [h1, h2]
   exact bls_correct e g2 _ hm
+
+/-- **… and for signer sets of every size `≥ t`, still without assuming a polynomial**: the all-subsets check verifies the
+sets of size exactly `t`; by Neville's recursion (`Proofs/SubsetCheck.check_extends`) the Lagrange combination of the
+recorded keys over every larger set is the reported key as well, so every set of at least `t` parties that hold the
+shares their recorded keys belong to signs validly under the reported key — the second half of C05's first claim, with
+corrupted dealers and arbitrary (non-polynomial) sharings included. -/
+theorem checked_sets_sign {κ : Type*} [DecidableEq κ] (U : Finset κ) (v : κ → F) (hv : Set.InjOn v U) (pk : κ → G2) (sk : κ → F)
+    (g2 tpk : G2) (t : ℕ) (ht : 1 ≤ t) (hcheck : ∀ S, S ⊆ U → S.card = t → ∑ k ∈ S, lam S v k • pk k = tpk)
+    (S : Finset κ) (hS : S ⊆ U) (hcard : t ≤ S.card) (hpk : ∀ k ∈ S, pk k = sk k • g2) (hm : G1) :
+    blsVerify e g2 tpk hm (∑ k ∈ S, lam S v k • (sk k • hm)) := by
+  obtain ⟨m, hm'⟩ : ∃ m, S.card = t + m := ⟨S.card - t, by omega⟩
+  have := TSSVerif.Proofs.SubsetCheck.check_extends U v hv pk tpk t ht hcheck m S hS hm'
+  exact checked_subset_signs e S v pk sk g2 tpk this hpk hm
 
 /-- the protocol half, restated here for reference: identical public material at all completing honest parties, for
 every schedule and every behaviour of the others -/
